@@ -103,7 +103,7 @@ func runC19(c *Ctx) {
 			checkRunningMax(c, fn, func(t *Term) bool { return t.Op == "extract" && t.Args[0].Op == "next" }, "frequency count", false)
 			// counts keyed by the block ID, final group = entries equal to the chosen ID
 			okKey := false
-			for _, b := range fn.Blocks {
+			for _, b := range blocksDeep(fn) {
 				for _, in := range b.Instrs {
 					if mu, ok := in.(*ssa.MapUpdate); ok {
 						if strings.Contains(T(mu.Key).String(), ".lastBlockID") {
@@ -389,7 +389,7 @@ func runC19(c *Ctx) {
 	{
 		srt := CallsIn(dl, "blockchain.SortBlockByHeightAsc")
 		var send ssa.Instruction
-		for _, b := range dl.Blocks {
+		for _, b := range blocksDeep(dl) {
 			for _, in := range b.Instrs {
 				if s, ok := in.(*ssa.Send); ok && strings.Contains(T(s.X).String(), "block") || (ok && s != nil && send == nil && strings.Contains(typeName(s.X.Type()), "downloadedContent")) {
 					// prefer the send that carries a block (inside the range loop)
